@@ -64,7 +64,7 @@ def _lists_with(stub, pred_as, pred_cps, want_as, want_cps, max_len=3):
 
 
 def extract():
-    """returns (entries, notes): entries = list of 77 (as, cps) pairs in FlagTable.ofBits order"""
+    """returns (entries, notes): entries = list of 101 (as, cps) pairs in FlagTable.ofBits order"""
     sourcer = import_real()
     from sourcer import expressions as ex
     stub = _stub_class(ex)
@@ -151,7 +151,21 @@ def extract():
     E.append(_agree('Backtrack', [flags_of(ex.Backtrack(n)) for n in (0, 1, 2)]))
     E.append(_agree('Fail', [flags_of(ex.Fail()), flags_of(ex.Fail('m'))]))
     E.append(_agree('PythonExpression', [flags_of(ex.PythonExpression(s)) for s in ('None', '1', 'x')]))
-    assert len(E) == 77, len(E)
+    # 77..92 apply (Apply(expr1, expr2))
+    for a in FLAGS4:
+        for b in FLAGS4:
+            E.append(_agree(f'Apply {a} {b}', [flags_of(ex.Apply(stub(*a), stub(*b), apply_left=l)) for l in (True, False)]))
+    # 93..100 operator table (has prefix rows, flags of the operands)
+    for hp in (False, True):
+        for c in FLAGS4:
+            vals = []
+            for pre_flags in (FLAGS4 if hp else [None]):
+                for post in (None, stub(False, False)):
+                    for inf in (None, stub(False, True)):
+                        t = ex.OperatorTable('operand', [], stub(*pre_flags) if pre_flags else None, stub(*c), post, inf)
+                        vals.append(flags_of(t))
+            E.append(_agree(f'OperatorTable prefix={hp} operands={c}', vals))
+    assert len(E) == 101, len(E)
     return E, notes
 
 
@@ -172,7 +186,9 @@ def entry_names():
     names += ['skip']
     names += [f'longest anyAs={aa} anyCps={ac}' for aa in 'FT' for ac in 'FT']
     names += ['backtrack', 'fail', 'py']
-    assert len(names) == 77
+    names += [f'apply a={f(a)} b={f(b)}' for a in FLAGS4 for b in FLAGS4]
+    names += [f'optable prefix={hp} operands={f(c)}' for hp in 'FT' for c in FLAGS4]
+    assert len(names) == 101
     return names
 
 
